@@ -262,6 +262,9 @@ TEMPLATES = [
     ("read_sub", "READ M( {n} )", ["DATA 1"]),
     ("input_sub", "INPUT M( {n} )", []),
     ("poke", "POKE {n} , {n}", []),
+    ("poke_fast", "POKE 65497 , {n}", []),
+    ("poke_slow", "POKE 65496 , {n}", []),
+    ("poke_slow_hex", "POKE &HFFD8 , {n}", []),
     ("sound", "SOUND {n} , {n}", []),
     ("cls", "CLS {n}", []),
     ("set", "SET( {n} , {n} , {n} )", []),
@@ -331,6 +334,11 @@ NUM_SHAPES = [
     ("conv_elem", "M( INT( V ) )"),
     ("dev", "JOYSTK( 0 )"),
     ("conv_neg", "INT( - V / 2 )"),
+    ("zero", "0"),
+    ("hexb", "&H8000"),
+    ("hexs", "&H7FFF"),
+    ("big", "32767"),
+    ("neg1", "- 1"),
     ("conv_pos", "INT( + V )"),
     ("two_conv", "INT( V ) + VAL( V$ )"),
     ("len", "LEN( V$ )"),
